@@ -64,4 +64,11 @@ theorem v1_maxRequestsPerPeer : Facts.c13_v1_maxRequestsPerPeer = 20 := by decid
 theorem v2_sched_removed_noop : Facts.c13_v2_sched_removed_noop = "peer.state == peerStateRemoved" := by decide
 theorem v2_targetPending : Facts.c13_v2_targetPending_10 = true := by decide
 
+/-- v0 saves and applies the very block (`first`) whose commit it verified; `PopRequest` hands
+nothing back (model: the pool's head block is the verified one; seeded change C13-r6-1 swapped it
+for whatever the popped requester holds after a concurrent peer removal) -/
+theorem v0_saves_verified_block : Facts.c13_v0_saves_verified_block = true := by decide
+theorem v0_applies_verified_block : Facts.c13_v0_applies_verified_block = true := by decide
+theorem v0_pop_returns_nothing : Facts.c13_v0_pop_returns_nothing = true := by decide
+
 end Tmv.Expect.C13
